@@ -114,3 +114,148 @@ class SC__visit_for(Contract):
 
     def post(self, stmt, ctx, result):
         return {'da': da_unchanged(ctx, result)}
+
+
+class SC__visit_if(Contract):
+    target = 'fpy2.analysis.syntax_check:SyntaxCheckInstance._visit_if'
+    params = {'self': 'SyntaxCheckInstance', 'stmt': 'IfStmt', 'ctx': '_Ctx'}
+    overrides = {'stmt.cond': 'Key[Expr]', 'stmt.ift': 'Key[StmtBlock]', 'stmt.iff': 'Key[StmtBlock]'}
+    returns = '_Env'
+    properties = ['C15']
+    modifies = ['self.free_var_args']
+    may_raise = ['FPySyntaxError']
+    options = {'call_counts': {'SyntaxCheckInstance._visit_expr': 1}}
+
+    def post(self, stmt, ctx, result):
+        return {
+            # DA(if) = DAblock(ift, V) ∩ DAblock(iff, V); TOP only if both arms terminate
+            'term': implies(live(ctx) and result.terminated, term_block(stmt.ift) and term_block(stmt.iff)),
+            'da': implies(live(ctx) and not result.terminated,
+                          forall_keys('NamedId', lambda k: implies(bound(result, k),
+                                      in_da_block(stmt.ift, ctx.env, k) and in_da_block(stmt.iff, ctx.env, k)))),
+        }
+
+
+class SC__visit_while(Contract):
+    target = 'fpy2.analysis.syntax_check:SyntaxCheckInstance._visit_while'
+    params = {'self': 'SyntaxCheckInstance', 'stmt': 'WhileStmt', 'ctx': '_Ctx'}
+    overrides = {'stmt.cond': 'Key[Expr]', 'stmt.body': 'Key[StmtBlock]'}
+    returns = '_Env'
+    properties = ['C15']
+    modifies = ['self.free_var_args']
+    may_raise = ['FPySyntaxError']
+    options = {'call_counts': {'SyntaxCheckInstance._visit_expr': 1}}
+
+    def post(self, stmt, ctx, result):
+        return {'da': da_unchanged(ctx, result)}
+
+
+class SC__visit_context(Contract):
+    target = 'fpy2.analysis.syntax_check:SyntaxCheckInstance._visit_context'
+    params = {'self': 'SyntaxCheckInstance', 'stmt': 'ContextStmt', 'ctx': '_Ctx'}
+    overrides = {'stmt.target': 'Key[NamedId] | UnderscoreId', 'stmt.ctx': 'Key[Expr]', 'stmt.body': 'Key[StmtBlock]'}
+    returns = '_Env'
+    properties = ['C15']
+    modifies = ['self.free_var_args']
+    may_raise = ['FPySyntaxError']
+    options = {'call_counts': {'SyntaxCheckInstance._visit_expr': 1}}
+
+    def post(self, stmt, ctx, result):
+        return {
+            # DA(with e as t: b) = DAblock(b, V ∪ {t})
+            'term': implies(live(ctx) and result.terminated, term_block(stmt.body)),
+            'da': implies(live(ctx) and not result.terminated,
+                          forall_keys('NamedId', lambda k: implies(bound(result, k),
+                                      in_da_block(stmt.body, ctx.env, k) or binds(stmt.target, k)))),
+        }
+
+
+class SC__visit_indexed_assign(Contract):
+    target = 'fpy2.analysis.syntax_check:SyntaxCheckInstance._visit_indexed_assign'
+    params = {'self': 'SyntaxCheckInstance', 'stmt': 'IndexedAssign', 'ctx': '_Ctx'}
+    overrides = {'stmt.var': 'Key[NamedId]', 'stmt.indices': 'KeySeq[Expr]', 'stmt.expr': 'Key[Expr]'}
+    returns = '_Env'
+    properties = ['C15']
+    modifies = ['self.free_var_args']
+    may_raise = ['FPySyntaxError']
+    options = {'loop_modifies': {0: ['self.free_var_args']}}
+
+    def inv0(self, stmt, ctx, env, done):
+        return {'env': same_obj(env, ctx.env)}
+
+    def post(self, stmt, ctx, result):
+        return {
+            'same': same_obj(result, ctx.env),
+            'var_checked': bound(ctx.env, stmt.var),       # xs[i] = e uses xs
+        }
+
+
+class SC__visit_assert(Contract):
+    target = 'fpy2.analysis.syntax_check:SyntaxCheckInstance._visit_assert'
+    params = {'self': 'SyntaxCheckInstance', 'stmt': 'AssertStmt', 'ctx': '_Ctx'}
+    overrides = {'stmt.test': 'Key[Expr]', 'stmt.msg': 'Key[Expr] | None'}
+    returns = '_Env'
+    properties = ['C15']
+    modifies = ['self.free_var_args']
+    may_raise = ['FPySyntaxError']
+
+    def post(self, stmt, ctx, result):
+        return {'same': same_obj(result, ctx.env)}
+
+
+class SC__visit_effect(Contract):
+    target = 'fpy2.analysis.syntax_check:SyntaxCheckInstance._visit_effect'
+    params = {'self': 'SyntaxCheckInstance', 'stmt': 'EffectStmt', 'ctx': '_Ctx'}
+    overrides = {'stmt.expr': 'Key[Expr]'}
+    returns = '_Env'
+    properties = ['C15']
+    modifies = ['self.free_var_args']
+    may_raise = ['FPySyntaxError']
+    options = {'call_counts': {'SyntaxCheckInstance._visit_expr': 1}}
+
+    def post(self, stmt, ctx, result):
+        return {'same': same_obj(result, ctx.env)}
+
+
+class SC__visit_return(Contract):
+    target = 'fpy2.analysis.syntax_check:SyntaxCheckInstance._visit_return'
+    params = {'self': 'SyntaxCheckInstance', 'stmt': 'ReturnStmt', 'ctx': '_Ctx'}
+    overrides = {'stmt.expr': 'Key[Expr]'}
+    returns = '_Env'
+    properties = ['C15']
+    modifies = ['self.free_var_args']
+    may_raise = ['FPySyntaxError']
+    options = {'call_counts': {'SyntaxCheckInstance._visit_expr': 1}}
+
+    def post(self, stmt, ctx, result):
+        # DA(return) = TOP: nothing to bound; the rule set says the path ends here
+        return {'terminated': result.terminated}
+
+
+class SC__visit_pass(Contract):
+    target = 'fpy2.analysis.syntax_check:SyntaxCheckInstance._visit_pass'
+    params = {'self': 'SyntaxCheckInstance', 'stmt': 'PassStmt', 'ctx': '_Ctx'}
+    returns = '_Env'
+    properties = ['C15']
+
+    def post(self, stmt, ctx, result):
+        return {'same': same_obj(result, ctx.env)}
+
+    def raises(self, stmt, ctx):
+        return {}
+
+
+class SC__visit_var(Contract):
+    target = 'fpy2.analysis.syntax_check:SyntaxCheckInstance._visit_var'
+    params = {'self': 'SyntaxCheckInstance', 'e': 'Var', 'ctx': '_Ctx'}
+    overrides = {'e.name': 'Key[NamedId] | UnderscoreId'}
+    returns = 'None'
+    properties = ['C15']
+    modifies = ['self.free_var_args']
+
+    def post(self, e, ctx, result):
+        # D3: a use that is accepted is defined on every path
+        return {'checked': bound(ctx.env, e.name) if cls_name(e.name) == 'NamedId' else self.allow_wildcard}
+
+    def raises(self, e, ctx):
+        return {'FPySyntaxError': (not bound(ctx.env, e.name)) if cls_name(e.name) == 'NamedId' else (not self.allow_wildcard)}
